@@ -6,15 +6,20 @@
 (* The source data file is a sequence of opaque chunks, one per committed  *)
 (* transaction (the driver makes every transaction the same number of      *)
 (* bytes, so a chunk offset k stands for the byte offset 4 + k*S, and 0    *)
-(* for 0).  A pack rewrites the file: a prefix of the transactions is      *)
-(* dropped and every remaining chunk gets a fresh identity (positions and  *)
-(* status bytes change).  A voted-but-unfinished transaction is one more   *)
+(* for 0).  Every transaction writes the same object, so a pack to a time  *)
+(* just after the k-th transaction of the file (Pack(k), every pack time   *)
+(* there is) frees the k-1 transactions before it: for k > 1 the file is   *)
+(* rewritten and every remaining chunk gets a fresh identity (positions    *)
+(* and status bytes change); for k = 1 nothing is freed and FileStorage    *)
+(* leaves the file alone ("pack didn't free any data").  Quick mode relies *)
+(* on that: it looks at the size and at the last backed-up range only.     *)
+(* A voted-but-unfinished transaction is one more                          *)
 (* chunk at the end of the file (TailId) that a read-only open of the      *)
 (* file does not count (status "c").  md5 sums are modelled by the         *)
 (* chunk sequence they were computed from (equal sums <=> equal bytes).    *)
 (*                                                                         *)
 (* One action per operation that changes something: Commit, BeginTail,     *)
-(* AbortTail, Pack(d), Backup(o) (transcription of do_backup / find_files  *)
+(* AbortTail, Pack(k), Backup(o) (transcription of do_backup / find_files  *)
 (* / scandat / do_full_backup / do_incremental_backup /                    *)
 (* delete_old_backups), Damage(t, kind).  The queries (do_recover for      *)
 (* every date, do_verify full and quick) are the derived variable `obs`,   *)
@@ -34,6 +39,12 @@
 (*                   to a transaction in progress): the sums always match  *)
 (*                   (F14).  FALSE: an empty last range says nothing, the  *)
 (*                   run falls back to the comparing procedure             *)
+(*   NoopPackRewrites                                                      *)
+(*                   a pack that frees nothing still replaces the data     *)
+(*                   file by a copy of the same size in which the          *)
+(*                   transactions up to the pack time are flagged packed   *)
+(*                   (not what FileStorage does: TLC shows that quick mode *)
+(*                   would then miss the pack)                             *)
 (*   ChainByListing  the chain of files to use is derived from the         *)
 (*                   directory listing alone (F18); FALSE: from the        *)
 (*                   listing *and* the .dat of its full backup, a missing  *)
@@ -45,11 +56,12 @@ CONSTANTS MaxChunks,      \* bound on the committed chunks of the source file
           MaxOps,         \* bound on the number of actions
           MaxBackups,     \* bound on backup runs (a run = one timestamp)
           Opts,           \* option combinations of Backup: subset of 0..15, bits full=1 quick=2 gzip=4 killold=8
-          QuickTrustsEmptyRange, ChainByListing
+          QuickTrustsEmptyRange, NoopPackRewrites, ChainByListing
 
 VARIABLES src,            \* committed chunks of the data file
           tail,           \* TRUE: a voted, unfinished transaction follows the committed part
           fresh,          \* next unused chunk identity
+          packed,         \* the first transaction of the file carries the "packed" status (a pack got that far)
           now,            \* number of backup runs so far = timestamp of the last one
           files,          \* repository: data files in name (= time) order, each with its .index and (full) its .dat
           runs,           \* ghost: <<[t, snap]>> committed chunks at every backup run (also runs that wrote
@@ -59,7 +71,7 @@ VARIABLES src,            \* committed chunks of the data file
           obs,            \* derived: answers of recover / verify and what the property demands of them
           ops
 
-vars == <<src, tail, fresh, now, files, runs, dmg, res, obs, ops>>
+vars == <<src, tail, fresh, packed, now, files, runs, dmg, res, obs, ops>>
 
 TailId == 0
 NoDmg == [t |-> 0, kind |-> "none"]
@@ -162,7 +174,7 @@ ObsOf(fs, rs, dm, n) ==
    verify |-> [q \in BOOLEAN |-> [out |-> VerifyOf(fs, dm, n, q), must |-> MustOf(fs, dm, q)]],
    ctx |-> DmgCtx(fs, dm, n)]
 
-Init == /\ src = <<1>> /\ tail = FALSE /\ fresh = 2
+Init == /\ src = <<1>> /\ tail = FALSE /\ fresh = 2 /\ packed = FALSE
         /\ now = 0 /\ files = <<>> /\ runs = <<>> /\ dmg = NoDmg /\ ops = 0
         /\ res = Did("init")
         /\ obs = ObsOf(<<>>, <<>>, NoDmg, 0)
@@ -172,26 +184,38 @@ SameRepo == UNCHANGED <<now, files, runs, dmg, obs>>
 \* tpc_finish of a new transaction, or of the voted one (its status byte changes: a new identity)
 Commit ==
   /\ Op /\ Len(src) < MaxChunks
-  /\ src' = Append(src, fresh) /\ fresh' = fresh + 1 /\ tail' = FALSE
+  /\ src' = Append(src, fresh) /\ fresh' = fresh + 1 /\ tail' = FALSE /\ UNCHANGED packed
   /\ res' = Did("commit") /\ SameRepo
 
 \* tpc_begin; store; tpc_vote - the transaction's bytes are in the file, flagged incomplete
 BeginTail ==
   /\ Op /\ ~tail /\ Len(src) < MaxChunks
-  /\ tail' = TRUE /\ res' = Did("begintail") /\ UNCHANGED <<src, fresh>> /\ SameRepo
+  /\ tail' = TRUE /\ res' = Did("begintail") /\ UNCHANGED <<src, fresh, packed>> /\ SameRepo
 
 \* tpc_abort after the vote: the file is truncated back
 AbortTail ==
   /\ Op /\ tail
-  /\ tail' = FALSE /\ res' = Did("aborttail") /\ UNCHANGED <<src, fresh>> /\ SameRepo
+  /\ tail' = FALSE /\ res' = Did("aborttail") /\ UNCHANGED <<src, fresh, packed>> /\ SameRepo
 
-\* pack dropping the first d transactions (every transaction writes the same object and the pack time
-\* lies just after transaction d+1); the packer takes the commit lock, so no transaction is in its vote
-Pack(d) ==
-  /\ Op /\ ~tail /\ d >= 1 /\ d < Len(src)
-  /\ src' = [i \in 1..(Len(src) - d) |-> fresh + i - 1]
-  /\ fresh' = fresh + Len(src) - d
-  /\ res' = Did("pack") /\ UNCHANGED tail /\ SameRepo
+\* pack to a time just after the k-th transaction of the file: the revisions written by the k-1 transactions
+\* before it are not current then and are freed (the packer takes the commit lock at the end, so no transaction
+\* is in its vote).  k = 1: nothing to free, FileStorage stops ("pack didn't free any data") and the file stays as
+\* it is - unless NoopPackRewrites, where the first transaction gets the packed flag if it does not carry it yet.
+Pack(k) ==
+  /\ Op /\ ~tail /\ k >= 1 /\ k <= Len(src)
+  /\ IF k > 1
+     THEN /\ src' = [i \in 1..(Len(src) - k + 1) |-> fresh + i - 1]
+          /\ fresh' = fresh + Len(src) - k + 1
+          /\ packed' = TRUE
+          /\ res' = [act |-> "pack", dec |-> "freed", why |-> ""]
+     ELSE IF NoopPackRewrites /\ ~packed
+     THEN /\ src' = <<fresh>> \o Tail(src)
+          /\ fresh' = fresh + 1
+          /\ packed' = TRUE
+          /\ res' = [act |-> "pack", dec |-> "rewritten", why |-> ""]
+     ELSE /\ UNCHANGED <<src, fresh, packed>>
+          /\ res' = [act |-> "pack", dec |-> "nothing-freed", why |-> ""]
+  /\ UNCHANGED tail /\ SameRepo
 
 (* ------------------------------ do_backup ------------------------------ *)
 Dec(d, w, from) == [dec |-> d, why |-> w, from |-> from]
@@ -242,7 +266,7 @@ Backup(o) ==
                       [] OTHER -> files
         /\ res' = [act |-> "backup", dec |-> dc.dec, why |-> dc.why]
         /\ obs' = ObsOf(files', runs', dmg, now')
-  /\ UNCHANGED <<src, tail, fresh, dmg>>
+  /\ UNCHANGED <<src, tail, fresh, packed, dmg>>
 
 (* ------------------------------- damage -------------------------------- *)
 \* one file of the chain that verification (and a dateless recovery) is about; nothing happens afterwards
@@ -254,25 +278,25 @@ Damage(t, kind) ==
   /\ dmg' = [t |-> t, kind |-> kind]
   /\ res' = Did("damage")
   /\ obs' = ObsOf(files, runs, dmg', now)
-  /\ UNCHANGED <<src, tail, fresh, now, files, runs>>
+  /\ UNCHANGED <<src, tail, fresh, packed, now, files, runs>>
 
 Kinds == {"missing", "trunc", "alt"}
-SourceStep == Commit \/ BeginTail \/ AbortTail \/ (\E d \in 1..MaxChunks : Pack(d))
+SourceStep == Commit \/ BeginTail \/ AbortTail \/ (\E k \in 1..MaxChunks : Pack(k))
 Next == \/ Commit \/ BeginTail \/ AbortTail
-        \/ \E d \in 1..MaxChunks : Pack(d)
+        \/ \E k \in 1..MaxChunks : Pack(k)
         \/ \E o \in Opts : Backup(o)
         \/ \E t \in 1..MaxBackups, k \in Kinds : Damage(t, k)
 \* sub-relations for directed runs
 NextNoDamage == \/ Commit \/ BeginTail \/ AbortTail
-                \/ \E d \in 1..MaxChunks : Pack(d)
+                \/ \E k \in 1..MaxChunks : Pack(k)
                 \/ \E o \in Opts : Backup(o)
 NextMissing == \/ Commit \/ BeginTail \/ AbortTail
-               \/ \E d \in 1..MaxChunks : Pack(d)
+               \/ \E k \in 1..MaxChunks : Pack(k)
                \/ \E o \in Opts : Backup(o)
                \/ \E t \in 1..MaxBackups : Damage(t, "missing")
 
 NextMissingNoTail == \/ Commit
-                     \/ \E d \in 1..MaxChunks : Pack(d)
+                     \/ \E k \in 1..MaxChunks : Pack(k)
                      \/ \E o \in Opts : Backup(o)
                      \/ \E t \in 1..MaxBackups : Damage(t, "missing")
 
